@@ -292,6 +292,21 @@ func c34Gen(r *vu.Rng, i int) []string {
 			}
 			ops = append(ops, "interim "+strings.Join(codes, "."))
 		}
+		expect := !mismatch && nobody == 0 && total > 0 && r.Chance(1, 5)
+		if expect {
+			ops = append(ops, "expect")
+		}
+		switch r.Intn(6) {
+		case 0:
+			ops = append(ops, "order w") // WriteHeader before reading the request body
+		case 1:
+			// Final header on the wire before the body is read. Not combined with Expect: the
+			// client (by design) does not send the body after a final response without a 100,
+			// so a handler that then reads blocks itself.
+			if !expect {
+				ops = append(ops, "order f")
+			}
+		}
 		ops = append(ops,
 			fmt.Sprintf("req %s %s %d %d %s %s %s", m, path, cl, nobody, c34GenHL(r, "h", 4), chunks, tr),
 			"wres", "cres")
